@@ -298,8 +298,30 @@ def prefix_law(ctx, case, db, full, rng, stats):
         return
     k = rng.randrange(1, len(p))
     mid = agg(db.c, p[:k])
-    if isinstance(mid, Exception) or not mid or not storable(mid):
+    if isinstance(mid, Exception) or not mid:
         stats['prefix: not storable'] += 1
+        return
+    if not storable(mid):
+        # the output of p cannot be stored (repeated or missing _ids, e.g. after $unwind): feed
+        # independent copies of it to the stage machinery itself
+        import mongomock.aggregate as _agg
+        try:
+            with warnings.catch_warnings():
+                warnings.simplefilter('ignore')
+                rest = list(_agg.process_pipeline(copy.deepcopy(mid), db.c.database,
+                                                  copy.deepcopy(p[k:]), None))
+        except Exception as e:  # pylint: disable=broad-except
+            rest = e
+        stats['prefix law checked (unstored)'] += 1
+        if isinstance(rest, Exception) or rest != full or \
+                [list(a) for a in rest] != [list(b) for b in full]:
+            oids = wire.Oids()
+            ctx.violation(render(case, kind='prefix law broken: aggregate(p ++ q) differs from '
+                                 'the stages q run on an independent copy of the output of '
+                                 'aggregate(p)', split=k, whole=show(full, oids),
+                                 staged=show(rest, oids) if not isinstance(rest, Exception)
+                                 else repr(rest)),
+                          rank=200 + len(repr(p)) + len(repr(case['docs'])))
         return
     try:
         with warnings.catch_warnings():
